@@ -31,6 +31,8 @@ deriving Repr, DecidableEq
 inductive Op where
   /-- create database (if missing) and retention policy; `raw` overwrites the normalised duration -/
   | rp (db rp : String) (sgd : Int) (raw : Bool)
+  /-- overwrite the shard group duration of an existing policy (`ALTER RETENTION POLICY … SHARD DURATION`) -/
+  | sgd (db rp : String) (sgd : Int)
   | csg (db rp : String) (t : Int)
   /-- `MapShards` with `now − Duration = cutoff` (`none`: no retention duration) -/
   | ms (db rp : String) (cutoff : Option Int) (ts : List Int)
@@ -117,6 +119,10 @@ def step (s : State) : Op → State × Obs
   | .rp db rp sgd raw =>
     match opRP s.data db rp sgd raw with
     | .ok d => ({ s with data := d }, .ok)
+    | .error e => (s, .err e)
+  | .sgd db rp sgd =>
+    match getRP s.data db rp with
+    | .ok r => ({ s with data := setRP s.data db rp { r with ShardGroupDuration := sgd } }, .ok)
     | .error e => (s, .err e)
   | .csg db rp t =>
     match clientCreateShardGroup s.data db rp t with
